@@ -79,7 +79,8 @@ JudgeFault(e) ==
           /\ (ff # 0 => ff = Len(e.calls))                      \* nothing reaches the sink after the failed write
           /\ IsPrefix(Held(e.calls), e.full)                    \* the sink holds a prefix of the fault-free output
           /\ (ff = 0 => Held(e.calls) = e.full)                 \* complete when the sink never fails
-          /\ (ff # 0 => e.lf # << >> /\ e.lf[Len(e.lf)] = "err")
+          \* the last link's own finish() reports it too, unless its attribute writer was dropped unfinished
+          /\ (ff # 0 => e.lf # << >> /\ e.lf[Len(e.lf)] \in { "err", "dropped" })
        THEN {} ELSE {"C18"}
 
 Init == l = 1 /\ bad = << >> /\ done = FALSE /\ drift = 0
